@@ -51,7 +51,8 @@ impl<C: Cursor> Cursor for ConcatenatingCursor<C> {
         let mut right = self.cursors.len() - 1;
 
         while left < right {
-            let mut mid = (left + right) / 2;
+            let pivot = (left + right) / 2;
+            let mut mid = pivot;
             self.reposition(mid)?;
             self.cursors[self.position].seek_to_last()?;
             self.cursors[self.position].prev()?;
@@ -61,15 +62,11 @@ impl<C: Cursor> Cursor for ConcatenatingCursor<C> {
                 self.cursors[self.position].seek_to_last()?;
                 self.cursors[self.position].prev()?;
             }
-            if mid == left {
-                break;
-            }
-            // SAFETY(rescrv):  We have a loop invariant above that goes until is_some or the
-            // conditional right above us.
-            if self.cursors[self.position].key().unwrap() >= kref {
-                right = mid;
-            } else {
-                left = mid + 1;
+            // The cursor is positioned on the last key of the nearest non-empty child at or below
+            // pivot (down to left), or unpositioned if every child in left..=pivot is empty.
+            match self.cursors[self.position].key() {
+                Some(last) if last >= kref => right = mid,
+                _ => left = pivot + 1,
             }
         }
         self.reposition(left)?;
